@@ -40,6 +40,7 @@ RULE = (
     "read(write(table)) == table through rowio and through cutplace.Writer/cutplace.rows under an all-Text CID. "
     "A case is non-trivial when some cell contains the configured delimiter, quote or escape character or a line "
     "break; distinct by hash of (configuration, table)."
+    "Readings overlap: the plain round trip is read while another reading of the same text begun earlier ends after its first row; 12-30 overlap scenarios (short reading / long-cell reading, three orders) run each in a freshly forked process. Writers also get iterators and generators."
 )
 ASSUMPTIONS = [
     "tables are rectangular with 1-4 columns: a row without cells is written as an empty line, which is not a table "
